@@ -210,6 +210,9 @@ def isTcp (s : Sess) : Bool := match s.proto with | some (.tcp, _) => true | _ =
 def streaming (s : Sess) : Bool := s.state == .play || s.state == .record
 def playMode (s : Sess) : Bool := s.state == .prePlay || s.state == .play
 
+/-- a UDP port `WriteTo` accepts -/
+def usablePort (p : Nat) : Bool := 0 < p && p ≤ 65535
+
 /-- the `chRemoveConn` rule negated: a session without connections stays alive exactly when it
 streams over UDP or multicast (then only `sessTimeout` ends it) -/
 def survivesAlone (s : Sess) : Bool := streaming s && !isTcp s
@@ -357,6 +360,9 @@ def decideInSession (st : State) (c : Conn) (s : Sess) (r : Req) : Verdict :=
     if s.state != .preRecord then bad else
     if s.medias.length != s.announced.length then bad else
     if r.path != s.path then bad else
+    -- `sm.start()`: the firewall-opening packets cannot be sent to an unusable port; the request
+    -- fails and the state change is undone
+    if isUdp s && s.medias.any (fun m => !(usablePort m.rtp && usablePort m.rtcp)) then bad else
     (200, false, .record)
   | .pause =>
     if s.state == .initial then bad else
@@ -540,7 +546,7 @@ def connInput (st : State) (c : Conn) (i : Input) : State × List Out :=
        else
          let (st, o) := closeConn st c
          (st, Out.http c.id 400 :: o)
-     | .skipped => (st, [Out.consumed c.id])
+     | .skipped => (setConn st { c with phase := .standard }, [Out.consumed c.id])
      | i =>
        let c := { c with phase := .standard }
        rtspInput (setConn st c) c i)
